@@ -3,6 +3,7 @@ package main
 // Instruction-level translation.
 
 import (
+	"sort"
 	"fmt"
 	"go/token"
 	"go/types"
@@ -108,10 +109,9 @@ func (u *Unit) execInstr(fn *ssa.Function, st *State, ins ssa.Instruction) {
 	case *ssa.Call:
 		u.call(st, x, x.Common(), x)
 	case *ssa.Defer:
-		if !u.isNoopCall(x.Common()) {
-			unsupp("defer of %s", x.Common().Value.Name())
-		}
+		u.deferCall(fn, st, x)
 	case *ssa.RunDefers:
+		u.runDefers(fn, st)
 	case *ssa.MakeInterface:
 		u.setReg(st, x, u.ty.mkIfc(x.X.Type(), u.val(st, x.X)))
 	case *ssa.ChangeInterface:
@@ -170,6 +170,9 @@ func (u *Unit) execInstr(fn *ssa.Function, st *State, ins ssa.Instruction) {
 		id := u.s.fresh("closure_"+f.Name(), SInt)
 		st.regs[x] = id
 		u.closures[id] = x
+		// the function a closure value was made from is part of the value (functional options are recognised by it)
+		u.s.declFun("closure_fn", []Sort{SInt}, SInt)
+		u.s.assume(eq(sx("closure_fn", id), intLit(u.eng.funcID(f))))
 	case *ssa.Range:
 		u.rangeInit(st, x)
 	case *ssa.Next:
@@ -534,4 +537,113 @@ func (u *Unit) isNoopCall(c *ssa.CallCommon) bool {
 		}
 	}
 	return false
+}
+
+// ---------------------------------------------------------------------------
+// defer: a deferred call is recorded with its argument values and a boolean flag ("this defer statement was
+// executed on the current path"); at RunDefers the recorded calls run in reverse order, each under its flag.
+
+type deferRec struct {
+	ins  *ssa.Defer
+	flag string
+	vals map[ssa.Value]Term
+	lvs  map[ssa.Value]*LV
+}
+
+func (u *Unit) deferCall(fn *ssa.Function, st *State, x *ssa.Defer) {
+	c := x.Common()
+	if u.isNoopCall(c) {
+		return
+	}
+	if f := c.StaticCallee(); f != nil && !strings.Contains(f.String(), modulePath) {
+		u.note("deferred external call %s: assumed to write no modelled state", f.String())
+		return
+	}
+	for _, l := range findLoops(fn) {
+		if l.blocks[x.Block()] {
+			unsupp("defer inside a loop in %s", fn.Name())
+		}
+	}
+	if u.defers == nil {
+		u.defers = map[*ssa.Function][]*deferRec{}
+	}
+	for _, d := range u.defers[fn] {
+		if d.ins == x {
+			unsupp("defer executed twice in %s", fn.Name())
+		}
+	}
+	rec := &deferRec{ins: x, flag: fmt.Sprintf("defer$%s$%d", mangle(fn.Name()), len(u.defers[fn])), vals: map[ssa.Value]Term{}, lvs: map[ssa.Value]*LV{}}
+	capture := func(v ssa.Value) {
+		if v == nil {
+			return
+		}
+		switch v.(type) {
+		case *ssa.Const, *ssa.Function, *ssa.Builtin, *ssa.Global:
+			return
+		}
+		if lv, ok := st.lvs[v]; ok {
+			rec.lvs[v] = lv
+			return
+		}
+		if t, ok := st.regs[v]; ok {
+			rec.vals[v] = t
+		}
+	}
+	capture(c.Value)
+	for _, a := range c.Args {
+		capture(a)
+	}
+	// the flag is false unless this statement ran
+	u.heapSort[rec.flag] = SBool
+	init := u.s.declConst(rec.flag+"@0", SBool)
+	u.s.assumeGlobal(not(init))
+	st.heaps[rec.flag] = "true"
+	u.defers[fn] = append(u.defers[fn], rec)
+}
+
+func (u *Unit) runDefers(fn *ssa.Function, st *State) {
+	recs := u.defers[fn]
+	for i := len(recs) - 1; i >= 0; i-- {
+		rec := recs[i]
+		flag, ok := st.heaps[rec.flag]
+		if !ok || flag == "false" {
+			continue
+		}
+		bst := st.clone()
+		bst.reach = and(st.reach, flag)
+		for v, t := range rec.vals {
+			bst.regs[v] = t
+		}
+		for v, lv := range rec.lvs {
+			bst.lvs[v] = lv
+		}
+		u.call(bst, nil, rec.ins.Common(), rec.ins)
+		// merge the heaps back under the flag
+		names := map[string]bool{}
+		for k := range bst.heaps {
+			names[k] = true
+		}
+		var ns []string
+		for k := range names {
+			ns = append(ns, k)
+		}
+		sort.Strings(ns)
+		for _, k := range ns {
+			a := bst.heaps[k]
+			b, has := st.heaps[k]
+			if !has {
+				b = u.heap(st, k, u.heapSort[k])
+			}
+			if a == b {
+				continue
+			}
+			if flag == "true" {
+				st.heaps[k] = a
+				continue
+			}
+			c := u.s.fresh(k, u.heapSort[k])
+			u.s.assume(eq(c, ite(flag, a, b)))
+			st.heaps[k] = c
+		}
+	}
 }
